@@ -3,7 +3,7 @@
 import json, os, subprocess, sys
 repo = sys.argv[1] if len(sys.argv) > 1 else "/repo"
 env = dict(os.environ, GOFLAGS="-mod=mod", GOPROXY="off", GOSUMDB="off", GOTOOLCHAIN="local")
-p = subprocess.run(["go", "test", "-json", "-vet=off", "-count=1", "-timeout", "25m", "./..."], cwd=repo, env=env,
+p = subprocess.run(["flock", "/tmp/flamego-gotest.lock", "go", "test", "-json", "-vet=off", "-count=1", "-timeout", "25m", "./..."], cwd=repo, env=env,
                    stdout=subprocess.PIPE, stderr=subprocess.STDOUT, text=True)
 passed = set()
 for l in p.stdout.splitlines():
